@@ -6,6 +6,7 @@ RULE = ("big.cmp: all pairs of 1-octet contents, 1-octet x 2-octet minimal conte
         "shared prefixes up to 24 octets; big.pred / big.conv / ubig.conv on the same pool; big.from for every fixed-width type over "
         "boundary and random values; uns.frombytes on all magnitudes of length 1-2, all-zero strings, random with leading zeros. "
         "non-trivial = both operands valid integers / conversion defined.")
+CROSS = {'C14': 1500, 'C04': 1500}   # cross streams: samples of neighbouring properties' request streams (outcomes, model <-> implementation)
 EXHAUSTIVE = {"quick": False, "thorough": False}
 EXHAUSTIVE_NOTE = {"quick": "all pairs of 1-octet contents; all magnitudes of <= 2 octets for from_slice",
                    "thorough": "additionally all pairs of (1|2)-octet minimal contents"}
